@@ -345,6 +345,7 @@ pub open spec fn sp_halves(z: Seq<SpCv>, x: Seq<u8>, t0: u64, key: Seq<u32>, fla
 }
 
 // what a list of CVs returned for the bytes x must satisfy
+#[verifier::opaque]
 pub open spec fn sp_covers(z: Seq<SpCv>, x: Seq<u8>, t0: u64, key: Seq<u32>, flags: u8) -> bool {
     if z.len() == 1 {
         x.len() <= 1024 && z[0] == sp_subtree_cv(x, t0, key, flags)
@@ -361,6 +362,7 @@ pub proof fn lemma_covers_tree(z: Seq<SpCv>, x: Seq<u8>, t0: u64, key: Seq<u32>,
     ensures
         sp_tree_cv(z, key, flags) == sp_subtree_cv(x, t0, key, flags),
 {
+    reveal(sp_covers);
     if z.len() >= 2 {
         lemma_lp2(z.len());
         lemma_subtree_split(x, t0, key, flags);
@@ -374,6 +376,7 @@ pub proof fn lemma_chunk_cvs_cover(x: Seq<u8>, t0: u64, key: Seq<u32>, flags: u8
     ensures
         sp_covers(sp_chunk_cvs(x, t0, key, flags), x, t0, key, flags),
 {
+    reveal(sp_covers);
     let n = sp_num_chunks(x.len());
     if n >= 2 {
         lemma_lp2(n);
@@ -584,5 +587,97 @@ pub proof fn lemma_wide_n_pow2(m: nat, d: nat)
         lemma_pow2_half(m as int);
         lemma_wide_n_pow2(m / 2, d);
         assert((len - 1024 * (m / 2)) as nat == 1024 * (m / 2));
+    }
+}
+
+// facts about the split of an input longer than d chunks
+pub proof fn lemma_wide_split_counts(len: nat, d: nat)
+    requires
+        sp_is_pow2(d as int),
+        len > 1024 * d,
+        len > 1024,
+    ensures
+        ({
+            let l = sp_left_len(len);
+            &&& 1024 <= l < len <= 2 * l
+            &&& l % 1024 == 0
+            &&& sp_num_chunks(l) == sp_lp2(sp_num_chunks(len))
+            &&& sp_num_chunks((len - l) as nat) == sp_num_chunks(len) - sp_lp2(sp_num_chunks(len))
+            &&& sp_wide_n(l, d) == (if l == 1024 { 1 } else { sp_max2(d) })
+            &&& (l == 1024 ==> d == 1 && len <= 2048)
+            &&& 1 <= sp_wide_n((len - l) as nat, d) <= sp_wide_n(l, d)
+            &&& sp_wide_n(len, d) == (if sp_wide_n(l, d) == 1 { 2 } else { (sp_wide_n(l, d) + sp_wide_n((len - l) as nat, d) + 1) / 2 })
+        }),
+{
+    let nc = sp_num_chunks(len);
+    lemma_left_len_bounds(len);
+    lemma_lp2(nc);
+    let l = sp_left_len(len);
+    if sp_lp2(nc) < d { lemma_pow2_gap(sp_lp2(nc) as int, d as int); }
+    lemma_wide_n_pow2(sp_lp2(nc), d);
+    lemma_wide_n_bounds((len - l) as nat, d);
+    assert(sp_num_chunks(l) == sp_lp2(nc));
+}
+
+// The recursive step of the "wide" subtree hashing, case of a single CV on each side.
+pub proof fn lemma_wide_step_one(x: Seq<u8>, t0: u64, key: Seq<u32>, flags: u8, xs: Seq<SpCv>, ys: Seq<SpCv>)
+    requires
+        1024 < x.len() <= 2048,
+        t0 + 2 <= 0x1_0000_0000_0000_0000,
+        xs.len() == 1, ys.len() == 1,
+        sp_covers(xs, x.subrange(0, 1024), t0, key, flags),
+        sp_covers(ys, x.subrange(1024, x.len() as int), (t0 + 1) as u64, key, flags),
+    ensures
+        sp_covers(xs + ys, x, t0, key, flags),
+{
+    reveal(sp_covers);
+    let z = xs + ys;
+    assert(sp_num_chunks(x.len()) == 2);
+    assert(sp_lp2(2) == 1);
+    assert(sp_left_len(x.len()) == 1024);
+    assert(z.subrange(0, 1) =~= xs);
+    assert(z.subrange(1, 2) =~= ys);
+}
+
+// ... case of at least two CVs on the left (an even power of two), between 1 and that many on the right
+pub proof fn lemma_wide_step_many(x: Seq<u8>, t0: u64, key: Seq<u32>, flags: u8, xs: Seq<SpCv>, ys: Seq<SpCv>)
+    requires
+        x.len() > 1024,
+        t0 + sp_num_chunks(x.len()) <= 0x1_0000_0000_0000_0000,
+        sp_is_pow2(xs.len() as int), xs.len() >= 2,
+        1 <= ys.len() <= xs.len(),
+        sp_covers(xs, x.subrange(0, sp_left_len(x.len()) as int), t0, key, flags),
+        sp_covers(ys, x.subrange(sp_left_len(x.len()) as int, x.len() as int),
+            (t0 + sp_left_len(x.len()) / 1024) as u64, key, flags),
+    ensures
+        sp_covers(sp_pairwise(xs + ys, key, flags), x, t0, key, flags),
+{
+    reveal(sp_covers);
+    let len = x.len();
+    let nc = sp_num_chunks(len);
+    lemma_left_len_bounds(len);
+    let l = sp_left_len(len) as int;
+    let left = x.subrange(0, l);
+    let right = x.subrange(l, len as int);
+    let t1 = (t0 + l / 1024) as u64;
+    lemma_chunk_cvs_split(x, t0, key, flags, sp_lp2(nc));
+    lemma_pow2_half(xs.len() as int);
+    lemma_pairwise_concat(xs, ys, key, flags);
+    let px = sp_pairwise(xs, key, flags);
+    let py = sp_pairwise(ys, key, flags);
+    let z = sp_pairwise(xs + ys, key, flags);
+    assert(z == px + py);
+    assert(px.len() == xs.len() / 2);
+    assert(1 <= py.len() <= px.len());
+    lemma_lp2_concat(px.len(), py.len());
+    assert(z.subrange(0, px.len() as int) =~= px);
+    assert(z.subrange(px.len() as int, z.len() as int) =~= py);
+    lemma_pairwise_tree(xs, key, flags);
+    lemma_covers_tree(xs, left, t0, key, flags);
+    lemma_covers_tree(ys, right, t1, key, flags);
+    if ys.len() >= 2 {
+        lemma_pairwise_tree(ys, key, flags);
+    } else {
+        assert(py =~= ys);
     }
 }
